@@ -52,7 +52,7 @@ pub fn string_over(alphabet: &'static [&'static str], max: usize) -> impl Strate
 
 pub const ADVERSARIAL: &[&str] = &[
     "/", "/", "/", ".", ".", "..", "~", "$", ":", "{", "}", " ", "a", "b", "é", "日", "😀", "\n", "\0", "-", "_", "x.tar.gz",
-    "//", "./", "../", "file://", "${", "$V",
+    "//", "./", "../", "file://", "${", "$V", "İ", "\u{212a}", "A", "ß",
 ];
 
 pub fn has_multibyte(s: &str) -> bool {
